@@ -28,7 +28,7 @@ static std::vector<Base> bases(bool thorough, bool small) {
     int k = 0;
     for (int rep = 0; rep < 2; rep++)
       for (int cm = 0; cm < 5; cm++) for (int hm = 0; hm < 3; hm++, k++) v.push_back({cm, hm, Ts[(k + rep) % 3], sz[(k * 5 + rep * 3 + cm) % sz.size()]});
-    if (small) v.resize(10);
+    if (small && !thorough) v.resize(10);
   }
   return v;
 }
